@@ -193,6 +193,31 @@ Theorem C09_download_spec : forall cwd rfs lcwd lfs src dst wi t fuel,
 Proof. exact download_spec_full. Qed.
 Print Assumptions C09_download_spec.
 
+(* Download onto PRE-EXISTING local content.  C09_download_spec already quantifies over every local tree lfs
+   (graft replaces a file that meets a file, keeps what the source does not mention); spelled out for the case
+   its `placed` clause does not reach -- the destination A itself is an existing local file of ARBITRARY old
+   contents c_old (longer, shorter, equal length, empty): afterwards the local file is exactly the remote bytes c
+   (no remainder of c_old), nothing is below it, every other path is unchanged. *)
+Theorem C09_download_file_replaces : forall cwd rfs lcwd lfs src dst wi c c_old fuel,
+  let dst' := final_destination (pname src) dst wi in
+  let A := resolve lcwd dst' in
+  (1 <= fuel)%nat ->
+  lookup rfs (resolve cwd src) = Some (File c) ->
+  lookup lfs A = Some (File c_old) ->
+  no_file_on lfs (removelast A) ->
+  p_parts dst' <> [] ->
+  download fuel cwd rfs lcwd lfs src dst wi = Ok (graft lfs A (File c)) /\
+  look (graft lfs A (File c)) A = Some (EFile c) /\
+  forall q, look (graft lfs A (File c)) q = placed lfs A (File c) q.
+Proof. exact download_file_replaces. Qed.
+Print Assumptions C09_download_file_replaces.
+
+(* non-vacuity: remote /f = [1], local /f = [9;9;9] (strictly longer): download("f") leaves /f = [1] *)
+Example C09_download_file_replaces_example :
+  download 1 [] (Dir [([102], File [1])]) [] (Dir [([102], File [9; 9; 9])]) (mkp false [[102]]) (mkp false []) false
+  = Ok (Dir [([102], File [1])]).
+Proof. vm_compute. reflexivity. Qed.
+
 (* ---------------------------------------------------------------------------------------------- *)
 (* Sessions: several operations on ONE client, with changes of the working directory between them.
    The state an operation may depend on is (server-side cwd of the session, remote tree) and nothing else:
